@@ -38,3 +38,4 @@ inline void inst_c20_f(float f, fixed_t x) { (void)sin_angle(f); (void)cos_angle
 }
 }
 namespace vfspec { inline void inst_c07(fixedmath::fixed_t a, fixedmath::fixed_t b) { (void)fixedmath::hypot_aprox(a, b); (void)fixedmath::sqrt_aprox(a); } }
+namespace vfspec { inline void inst_c07b(fixedmath::fixed_t a) { (void)fixedmath::atan_aprox(a); (void)fixedmath::atan_index_aprox(a); } }
